@@ -125,6 +125,7 @@ func c02Eval(r *hx.Run, cs c02Case, dir string) {
 			ylines++
 		}
 	}
+	lfLines := nlines
 	nlines = max(nlines, ylines)
 	r.Case(fmt.Sprintf("%x|%v|%v", content, cs.Strict, cs.Thanos), len(o.res.Entries) > 0)
 	r.Count("origin:" + cs.Origin)
@@ -154,7 +155,13 @@ func c02Eval(r *hx.Run, cs c02Case, dir string) {
 			}
 		}
 		if bad {
-			r.Violate(hx.Violation{Class: "line-range-outside-file:" + rep.Problem.Reporter, Known: true, Input: cs,
+			class := "line-range-outside-file:" + rep.Problem.Reporter
+			if ylines > lfLines {
+				// YAML counts a lone CR as a line break, pint's reader splits on LF only: node lines and pint's own lines
+				// disagree from there on (recorded finding)
+				class = "line-range-broken-by-lone-cr"
+			}
+			r.Violate(hx.Violation{Class: class, Known: true, Input: cs,
 				Observed: map[string]any{"lines": l, "file_lines": nlines, "summary": rep.Problem.Summary}, Expected: "1 <= first <= last <= number of lines"})
 			return
 		}
